@@ -1180,12 +1180,15 @@ async fn detect_fd_leaks<'a>(
     stopwatch: &mut StopwatchStart,
     req_rx: &mut UnboundedReceiver<RunUnitRequest<'a>>,
 ) -> bool {
-    loop {
-        // Ignore stop and continue events here since the leak timeout should be very small.
-        // TODO: we may want to consider them.
-        let mut sleep = std::pin::pin!(tokio::time::sleep(leak_timeout));
-        let waiting_stopwatch = crate::time::stopwatch();
+    // Ignore stop and continue events here since the leak timeout should be very small.
+    // TODO: we may want to consider them.
+    //
+    // The sleep is created once, outside the loop: the leak timeout is measured from the time the
+    // child exited, not from the last time output was read or a request was received.
+    let mut sleep = std::pin::pin!(tokio::time::sleep(leak_timeout));
+    let waiting_stopwatch = crate::time::stopwatch();
 
+    loop {
         tokio::select! {
             // All of the branches here need to check for
             // `!child_acc.fds.is_done()`, because if child_fds is done we want
